@@ -44,11 +44,23 @@ fn flow_rule(id: &str, res: &str, key: &str) -> Arc<flow::Rule> {
         "t3" => r.threshold = 3.0,
         "t5" => r.threshold = 5.0,
         "t7" => r.threshold = 7.0,
-        "w9" => {
+        // throttling rules that differ in exactly one field: pacing interval, maximum queueing time (rule equality must see each field)
+        "h4" | "h4i" | "h4q" => {
+            r.threshold = 4.0;
+            r.control_strategy = flow::ControlStrategy::Throttling;
+            r.stat_interval_ms = if key == "h4i" { 2000 } else { 1000 };
+            r.max_queueing_time_ms = if key == "h4q" { 1000 } else { 500 };
+        }
+        // a private statistic window
+        "p5" => {
+            r.threshold = 5.0;
+            r.stat_interval_ms = 1500;
+        }
+        "w9" | "w9p" | "w9c" => {
+            r.warm_up_period_sec = if key == "w9p" { 3 } else { 2 };
+            r.warm_up_cold_factor = if key == "w9c" { 4 } else { 3 };
             r.threshold = 9.0;
             r.calculate_strategy = flow::CalculateStrategy::WarmUp;
-            r.warm_up_period_sec = 2;
-            r.warm_up_cold_factor = 3;
         }
         "xneg" => r.threshold = -1.0,
         "xwarm" => {
@@ -62,7 +74,11 @@ fn flow_rule(id: &str, res: &str, key: &str) -> Arc<flow::Rule> {
 }
 fn flow_key(r: &flow::Rule) -> String {
     if r.calculate_strategy == flow::CalculateStrategy::WarmUp {
-        if r.warm_up_period_sec == 0 { "xwarm".into() } else { "w9".into() }
+        if r.warm_up_period_sec == 0 { "xwarm".into() } else if r.warm_up_period_sec == 3 { "w9p".into() } else if r.warm_up_cold_factor == 4 { "w9c".into() } else { "w9".into() }
+    } else if r.control_strategy == flow::ControlStrategy::Throttling {
+        if r.stat_interval_ms == 2000 { "h4i".into() } else if r.max_queueing_time_ms == 1000 { "h4q".into() } else { "h4".into() }
+    } else if r.stat_interval_ms == 1500 {
+        "p5".into()
     } else if r.threshold < 0.0 {
         "xneg".into()
     } else {
@@ -92,6 +108,21 @@ fn hs_rule(id: &str, res: &str, key: &str) -> Arc<hs::Rule> {
             r.threshold = if key == "q2" { 2 } else { 4 };
             r.duration_in_sec = 1;
         }
+        // QPS rules that differ from q2 in exactly one field: a per-value override, the burst, the parameter index
+        "q2o" | "q2b" | "q2i" => {
+            r.metric_type = hs::MetricType::QPS;
+            r.threshold = 2;
+            r.duration_in_sec = 1;
+            if key == "q2o" {
+                r.specific_items.insert("a".into(), 5);
+            }
+            if key == "q2b" {
+                r.burst_count = 1;
+            }
+            if key == "q2i" {
+                r.param_index = 1;
+            }
+        }
         "c3" => {
             r.metric_type = hs::MetricType::Concurrency;
             r.threshold = 3;
@@ -114,6 +145,9 @@ fn hs_rule(id: &str, res: &str, key: &str) -> Arc<hs::Rule> {
 fn hs_key(r: &hs::Rule) -> String {
     match (r.metric_type, r.threshold) {
         (hs::MetricType::QPS, 6) => "xdur".into(),
+        (hs::MetricType::QPS, 2) if !r.specific_items.is_empty() => "q2o".into(),
+        (hs::MetricType::QPS, 2) if r.burst_count == 1 => "q2b".into(),
+        (hs::MetricType::QPS, 2) if r.param_index == 1 => "q2i".into(),
         (hs::MetricType::QPS, t) => format!("q{}", t),
         (hs::MetricType::Concurrency, 8) => "xkey".into(),
         (hs::MetricType::Concurrency, t) => format!("c{}", t),
@@ -143,6 +177,22 @@ fn br_rule(id: &str, res: &str, key: &str) -> Arc<br::Rule> {
             r.strategy = br::BreakerStrategy::ErrorRatio;
             r.threshold = 0.5;
         }
+        // differ from r5 in exactly one field: retry timeout, minimum request amount
+        "r5t" | "r5m" => {
+            r.strategy = br::BreakerStrategy::ErrorRatio;
+            r.threshold = 0.5;
+            if key == "r5t" {
+                r.retry_timeout_ms = 2000;
+            } else {
+                r.min_request_amount = 5;
+            }
+        }
+        // differs from s5 in the slow-call bound only
+        "s5m" => {
+            r.strategy = br::BreakerStrategy::SlowRequestRatio;
+            r.threshold = 0.5;
+            r.max_allowed_rt_ms = 100;
+        }
         "s5" => {
             r.strategy = br::BreakerStrategy::SlowRequestRatio;
             r.threshold = 0.5;
@@ -164,8 +214,8 @@ fn br_rule(id: &str, res: &str, key: &str) -> Arc<br::Rule> {
 fn br_key(r: &br::Rule) -> String {
     match r.strategy {
         br::BreakerStrategy::ErrorCount => if r.stat_interval_ms == 0 { "xivl".into() } else if r.threshold == 3.0 { "e3".into() } else { "e2".into() },
-        br::BreakerStrategy::ErrorRatio => if r.threshold > 1.0 { "xthr".into() } else { "r5".into() },
-        _ => "s5".into(),
+        br::BreakerStrategy::ErrorRatio => if r.threshold > 1.0 { "xthr".into() } else if r.retry_timeout_ms == 2000 { "r5t".into() } else if r.min_request_amount == 5 { "r5m".into() } else { "r5".into() },
+        _ => if r.max_allowed_rt_ms == 100 { "s5m".into() } else { "s5".into() },
     }
 }
 
@@ -175,19 +225,21 @@ fn sys_rule(id: &str, key: &str) -> Arc<sys::Rule> {
         "q5" => (sys::MetricType::InboundQPS, 5.0),
         "q6" => (sys::MetricType::InboundQPS, 6.0),
         "c3" => (sys::MetricType::Concurrency, 3.0),
-        "l5" => (sys::MetricType::Load, 0.5),
+        "l5" | "l5b" => (sys::MetricType::Load, 0.5),
         "xneg" => (sys::MetricType::AvgRT, -1.0),
         "xload" => (sys::MetricType::Load, 2.0),
         _ => panic!("harness: system key {}", key),
     };
-    Arc::new(sys::Rule { id: id.into(), metric_type: m, threshold: thr, ..Default::default() })
+    // l5b: the same Load rule under the BBR strategy (differs from l5 in the strategy only)
+    let strategy = if key == "l5b" { sys::AdaptiveStrategy::BBR } else { sys::AdaptiveStrategy::NoAdaptive };
+    Arc::new(sys::Rule { id: id.into(), metric_type: m, threshold: thr, strategy, ..Default::default() })
 }
 fn sys_key(r: &sys::Rule) -> (String, String) {
     let k = match (r.metric_type, r.threshold) {
         (sys::MetricType::InboundQPS, t) => format!("q{}", t as u64),
         (sys::MetricType::Concurrency, _) => "c3".to_string(),
         (sys::MetricType::Load, t) if t > 1.0 => "xload".to_string(),
-        (sys::MetricType::Load, _) => "l5".to_string(),
+        (sys::MetricType::Load, _) => if r.strategy == sys::AdaptiveStrategy::BBR { "l5b".to_string() } else { "l5".to_string() },
         _ => "xneg".to_string(),
     };
     (format!("{:?}", r.metric_type), k)
@@ -196,7 +248,7 @@ pub fn sys_res_of_key(key: &str) -> &'static str {
     match key {
         "q5" | "q6" => "InboundQPS",
         "c3" => "Concurrency",
-        "l5" | "xload" => "Load",
+        "l5" | "l5b" | "xload" => "Load",
         _ => "AvgRT",
     }
 }
